@@ -18,7 +18,11 @@ def run(tier, seed):
         vfsrun.bfs(out, "link2", ["--links", "2", "--maxstates", "12000"], groups_per_chunk=750)
     n, ln = (600, 250) if thorough else (48, 120)
     vfsrun.hist(out, "chaos", "rand", ["--chaos", "--n", str(n), "--len", str(ln), "--seed", str(seed)], recs_per_chunk=38 if thorough else 3)
-    out.assumptions += ["quiescent states after concurrent schedules are checked by the C04 check (same RepViolation operator)"]
+    # "...and at quiescence after every explored concurrent schedule": every interleaving of all two-thread one-call programs
+    # on real threads (controlled scheduler), the final representation judged with the same RepViolation operator
+    from props import c04
+    c04.sched(out, "all2x1", ["--mode", "all2x1"], nworkers=8)
+    out.assumptions += ["deeper concurrent programs and stress runs are judged by the C04 check (same RepViolation operator)"]
     out.finish(dict(rule="RepViolation evaluated on the projected representation (entries, files, child sets, cwd/root, poisoned flag) after every step; "
                          "steps come from the BFS of the real Memfs (<= 1 link%s) and from seeded histories in which half of the arguments are out of domain; "
                          "non-trivial = the call changed the state or failed" % (", <= 2 links bounded" if thorough else "")))
